@@ -509,8 +509,68 @@ fn near_miss() -> Vec<Vec<GRule>> {
     //    alternative, `?` or a look-ahead: no left recursion, yet every iteration re-enters the rule and matches empty.  Bounded
     //    repetitions and an enclosing rule that always consumes are the sound controls (accepted, and run).
     for g in back_reference_family() { out.push(g); }
+    // L. bodies that are SEQUENCES of non-progressing elements of DIFFERENT kinds (look-ahead ~ empty literal of each kind, empty literal ~
+    //    look-ahead, SOI / EOI ~ ^"", PUSH("") ~ ..., through rules; tagged in every position when built with grammar-extras) as
+    //    repetition body, as WHITESPACE / COMMENT body and as the prefix in front of a recursive call: a validator that gets ONE kind of
+    //    element wrong is masked when that element stands alone (cannot-fail is asked first) and shows only next to one that can fail
+    for g in np_sequence_family() { out.push(g); }
     let mut seen = BTreeSet::new();
     out.retain(|g| seen.insert(sexp_grammar(g)));
+    out
+}
+
+/// elements that never consume: (expression, helper rules it needs); the last entries are consuming controls
+fn np_atoms() -> Vec<GE> {
+    use GE::*;
+    let mut v = vec![
+        Neg(b(s("y"))), Pos(b(s("x"))), s(""), Ins("".into()), id("SOI"), id("EOI"), Push(b(s(""))), Push(b(Ins("".into()))), Opt(b(s("y"))), Rep(b(Ins("y".into()))),
+        id("la"), id("em"), Neg(b(Ins("y".into()))), Pos(b(id("ANY"))), RepX(b(Ins("".into())), 2),
+    ];
+    if extras() { v.push(PushLit("".into())); }
+    // controls: fail or consume
+    v.push(Ins("x".into())); v.push(Range('x', 'y'));
+    v
+}
+fn np_helpers(mut g: Vec<GRule>) -> Vec<GRule> {
+    let mut used = BTreeSet::new();
+    for r in &g { walk(&r.e, &mut |e| if let GE::Id(n) = e { used.insert(n.clone()); }); }
+    if used.contains("la") { g.push(rule("la", Ty::Silent, GE::Neg(b(s("y"))))); }
+    if used.contains("em") { g.push(nrule("em", GE::Ins("".into()))); }
+    g
+}
+/// the sequences of two (a few of three) different non-progressing elements; with grammar-extras also the tagged versions
+fn np_sequences() -> Vec<GE> {
+    use GE::*;
+    let atoms = np_atoms();
+    let tag = |e: &GE| Tag("t".into(), b(e.clone()));
+    let mut v = vec![];
+    if extras() { for a in &atoms { v.push(tag(a)); v.push(tag(&tag(a))); } }
+    for (i, a) in atoms.iter().enumerate() {
+        for (j, c) in atoms.iter().enumerate() {
+            if i == j { continue; }
+            v.push(seq(a.clone(), c.clone()));
+            if extras() && !matches!(a, Id(n) if n == "SOI" || n == "EOI") { v.push(seq(tag(a), c.clone())); }
+            if extras() && (i + j) % 3 == 0 { v.push(seq(a.clone(), tag(c))); v.push(tag(&seq(a.clone(), c.clone()))); }
+            if (i * 7 + j) % 11 == 0 { let k = &atoms[(i + j) % atoms.len()]; v.push(seq(a.clone(), seq(c.clone(), k.clone()))); v.push(seq(seq(k.clone(), a.clone()), c.clone())); }
+        }
+    }
+    v
+}
+fn np_sequence_family() -> Vec<Vec<GRule>> {
+    use GE::*;
+    let mut out = vec![];
+    for (k, body) in np_sequences().into_iter().enumerate() {
+        out.push(np_helpers(vec![nrule("a", seq(Rep(b(body.clone())), s("x")))]));
+        out.push(np_helpers(vec![nrule("a", seq(s("x"), seq(Rep1(b(body.clone())), s("y"))))]));
+        out.push(np_helpers(vec![nrule("a", seq(s("x"), s("x"))), rule(if k % 2 == 0 { "WHITESPACE" } else { "COMMENT" }, Ty::Silent, body.clone())]));
+        out.push(np_helpers(vec![nrule("a", cho(seq(body.clone(), id("a")), s("x")))]));
+        match k % 4 {
+            0 => out.push(np_helpers(vec![nrule("a", seq(s("y"), RepMin(b(body.clone()), 1)))])),
+            1 => out.push(np_helpers(vec![nrule("a", seq(s("x"), s("x"))), rule(if k % 8 == 1 { "COMMENT" } else { "WHITESPACE" }, Ty::Normal, body.clone())])),
+            2 => out.push(np_helpers(vec![nrule("a", seq(seq(body.clone(), id("c")), s("x"))), rule("c", Ty::Silent, cho(seq(body.clone(), id("a")), s("y")))])),
+            _ => out.push(np_helpers(vec![nrule("a", cho(seq(s("x"), body.clone()), s("y")))])),     // control: no repetition, no recursion
+        }
+    }
     out
 }
 
@@ -596,6 +656,27 @@ fn inject_back_reference(r: &mut Rng, g: &mut Vec<GRule>, n: usize) {
         g[j].e = match r.below(4) { 0 => id(&kn), 1 => cho(id(&kn), oldj), 2 => seq(id(&kn), Opt(b(oldj))), _ => cho(seq(s("y"), s("y")), id(&kn)) };
     }
 }
+fn inject_np_sequence(r: &mut Rng, g: &mut Vec<GRule>, n: usize) {
+    use GE::*;
+    let atoms: Vec<GE> = np_atoms().into_iter().filter(|e| !matches!(e, Id(x) if x == "la" || x == "em")).collect();
+    let len = 2 + r.below(2) as usize;
+    let mut body: Option<GE> = None;
+    for _ in 0..len {
+        let mut a = r.pick(&atoms).clone();
+        if extras() && r.chance(1, 4) && !matches!(&a, Id(_)) { a = Tag("t".into(), b(a)); }
+        body = Some(match body { None => a, Some(p) => if r.chance(1, 2) { seq(p, a) } else { seq(a, p) } });
+    }
+    let mut body = body.unwrap();
+    if extras() && r.chance(1, 6) { body = Tag("u".into(), b(body)); }
+    let k = r.below(n as u64) as usize;
+    let j = r.below(n as u64) as usize;
+    let jn = g[j].name.clone();
+    let old = g[k].e.clone();
+    g[k].e = match r.below(6) {
+        0 => seq(Rep(b(body)), old), 1 => seq(s("x"), seq(Rep1(b(body)), old)), 2 => cho(seq(s("y"), RepMin(b(body), r.range(0, 2) as u32)), old),
+        3 => cho(seq(body, id(&jn)), old), 4 => seq(seq(body, id(&jn)), Opt(b(old))), _ => seq(old, Rep(b(body))),
+    };
+}
 fn random_grammar(r: &mut Rng) -> Vec<GRule> {
     let cfg = GenCfg { stack: r.chance(1, 8), extras: extras(), counts: r.chance(1, 2), builtins: r.chance(1, 3) };
     let n = 1 + r.below(4) as usize;
@@ -612,6 +693,8 @@ fn random_grammar(r: &mut Rng) -> Vec<GRule> {
     // a repetition behind something consuming whose body refers to a rule (often one that leads back to the enclosing rule), while
     // the enclosing rule gets an alternative that succeeds without consuming
     if r.chance(1, 5) { inject_back_reference(r, &mut g, n); }
+    // a sequence of two or three non-progressing elements of different kinds (sometimes tagged) as a repetition body / in front of a reference
+    if r.chance(1, 6) { inject_np_sequence(r, &mut g, n); }
     // rare name defects
     match r.below(40) {
         0 => { let k = r.below(g.len() as u64) as usize; let d = g[k].clone(); g.push(d); }
@@ -822,13 +905,68 @@ fn variants(g0: &[GRule], r: &mut Rng, random_chains: usize, out: &mut Vec<Vec<G
     }
 }
 
+/// references to user rules replaced by the bodies of those rules (`depth` levels), what remains by a literal: the expression on its own
+fn inline_refs(g: &[GRule], e: &GE, depth: u32) -> GE {
+    use GE::*;
+    let mut bx = |x: &GE| Box::new(inline_refs(g, x, depth));
+    match e {
+        // the literal that stands for a rule that is not unfolded any more depends on the rule, so that `!r0 ~ &r1` stays satisfiable
+        Id(n) => match g.iter().position(|r| &r.name == n) { Some(i) => if depth == 0 { s(ALPHA[i % 3]) } else { inline_refs(g, &g[i].e, depth - 1) }, None => e.clone() },
+        Pos(x) => Pos(bx(x)), Neg(x) => Neg(bx(x)), Opt(x) => Opt(bx(x)), Rep(x) => Rep(bx(x)), Rep1(x) => Rep1(bx(x)),
+        RepX(x, n) => RepX(bx(x), *n), RepMin(x, n) => RepMin(bx(x), *n), RepMax(x, n) => RepMax(bx(x), *n), RepMM(x, m, n) => RepMM(bx(x), *m, *n),
+        Push(x) => Push(bx(x)), Tag(t, x) => Tag(t.clone(), bx(x)), Roe(x) => Roe(bx(x)),
+        Seq(l, r) => { let l2 = bx(l); Seq(l2, bx(r)) } Cho(l, r) => { let l2 = bx(l); Cho(l2, bx(r)) }
+        other => other.clone(),
+    }
+}
+/// The pieces of a grammar on their own (a differing grammar usually has several unrelated errors, and every variant of it keeps the other
+/// ones): every repetition, every WHITESPACE / COMMENT body and every prefix of a sequence in front of a reference, with the references
+/// replaced by the rule bodies (0-2 levels), placed in a one-rule grammar as repetition (as it is, `*`, `+`) at the start / behind a
+/// consumed letter, as WHITESPACE / COMMENT, and as the prefix of a recursive call.
+fn isolated(g0: &[GRule], out: &mut Vec<Vec<GRule>>) {
+    use GE::*;
+    for rl in g0 {
+        let mut ns = vec![];
+        nodes(&rl.e, false, &mut ns);
+        let special = rl.name == "WHITESPACE" || rl.name == "COMMENT";
+        for (ni, (node, _)) in ns.iter().enumerate() {
+            let mut pieces: Vec<(GE, bool)> = vec![];      // (expression, is already a repetition)
+            if let Some(body) = rep_like(node) { pieces.push((node.clone(), true)); pieces.push((body.clone(), false)); }
+            if ni == 0 && special { pieces.push((node.clone(), false)); }
+            if let Seq(l, r) = node { if first_node(g0, r, true).is_some() || first_node(g0, l, true).is_some() { pieces.push(((**l).clone(), false)); } }
+            if let Tag(..) = node { pieces.push((node.clone(), false)); }
+            for (piece, is_rep) in pieces {
+                for depth in 0..3u32 {
+                    let e = inline_refs(g0, &piece, depth);
+                    if { let mut v = vec![]; nodes(&e, false, &mut v); v.len() } > 24 { continue; }
+                    let reps: Vec<GE> = if is_rep { vec![e.clone()] } else { vec![Rep(b(e.clone())), Rep1(b(e.clone()))] };
+                    for rp in reps {
+                        out.push(vec![nrule("a", seq(rp.clone(), s("x")))]);
+                        out.push(vec![nrule("a", seq(s("x"), seq(rp.clone(), s("y"))))]);
+                    }
+                    if !is_rep {
+                        for sp in ["WHITESPACE", "COMMENT"] { out.push(vec![nrule("a", seq(s("x"), s("x"))), rule(sp, Ty::Silent, e.clone())]); }
+                        out.push(vec![nrule("a", cho(seq(e.clone(), id("a")), s("x")))]);
+                    }
+                    if depth > 0 && first_node(g0, &piece, true).is_none() { break; }     // no references: the deeper levels are the same
+                }
+            }
+        }
+    }
+}
+
 fn escalate(path: &str, seed: u64, cap: usize) -> (Vec<Vec<GRule>>, usize) {
     let text = std::fs::read_to_string(path).unwrap_or_default();
     let mut starts: Vec<Vec<GRule>> = text.lines().filter(|l| !l.trim().is_empty()).filter_map(|l| catch(|| parse_sexp_grammar(l.trim())).ok()).collect();
+    // the pieces of every differing grammar on their own come first (small, and free of the unrelated errors of the whole grammar)
+    let mut pieces: Vec<Vec<GRule>> = vec![];
+    for g in &starts { if size_of(g) <= 60 && g.len() <= 8 { isolated(g, &mut pieces); } }
     starts.retain(|g| size_of(g) <= 30 && g.len() <= 5);
     let mut r = Rng::new(seed);
     let mut seen = BTreeSet::new();
     let mut out: Vec<Vec<GRule>> = vec![];
+    pieces.sort_by_key(|g| size_of(g));
+    for g in pieces { if out.len() < cap / 3 && seen.insert(sexp_grammar(&g)) { out.push(g); } }
     // round robin over the starting grammars so that the cap does not cut whole families off
     let mut per_start: Vec<Vec<Vec<GRule>>> = starts.iter().map(|g| { let mut v = vec![g.clone()]; variants(g, &mut r, 60, &mut v); v }).collect();
     for v in per_start.iter_mut() { v.sort_by_key(|g| size_of(g)); v.reverse(); }   // pop() takes the smallest first
